@@ -41,6 +41,109 @@ type pool struct {
 	keys    []string
 	heights []uint64
 	nBase   int // hdrs[:nBase] have pairwise distinct hashes; hdrs[nBase+2*b], hdrs[nBase+2*b+1] are the same-hash siblings of hdrs[b]
+
+	// byte-boundary heights of this case: bound is a height whose little-endian record has low byte(s) 00 (a multiple of
+	// 256, of 65536, ..., a power of two, 2^32, ...); bheights is its neighbourhood on both sides and around the next
+	// multiple of 256.  hdrs[3*nBase:] are extra headers (no siblings) at bound-1, bound, bound+1.
+	bound    uint64
+	bheights []uint64
+	// big payloads, made on demand: (base data index, marshalled length) -> index into datas / datBlob
+	big map[[2]int]int
+}
+
+// a height whose 8-byte little-endian record ends a run of low bytes: the neighbours bound-1 / bound differ in a byte
+// above the lowest one, and their low bytes order the other way round
+func drawBound(r *rand.Rand) uint64 {
+	var b uint64
+	switch r.Intn(7) {
+	case 0:
+		b = 256
+	case 1:
+		b = 256 * uint64(1+r.Intn(2000)) // a multiple of 256 a chain reaches soon
+	case 2:
+		b = 1 << (8 * uint(1+r.Intn(7))) // 2^8, 2^16, 2^24, 2^32, ... 2^56
+	case 3:
+		b = uint64(1+r.Intn(255)) << (8 * uint(1+r.Intn(7))) // k * 2^(8j)
+	case 4:
+		b = 1 << uint(9+r.Intn(55)) // any power of two up to 2^63
+	case 5:
+		b = 1<<64 - 256 // the last multiple of 256: bound+255 is the largest height
+	default:
+		b = r.Uint64() &^ 0xff // a large initial height, somewhere
+	}
+	if b < 256 {
+		b = 256
+	}
+	return b
+}
+
+func (p *pool) pickHeight(r *rand.Rand) uint64 {
+	if r.Intn(4) == 0 {
+		return p.bheights[r.Intn(len(p.bheights))]
+	}
+	return p.heights[r.Intn(len(p.heights))]
+}
+
+// the data of a save: pool data o.D, or (o.Sz > 0) pool data o.D grown by one filler transaction so that its
+// marshalled blob is o.Sz bytes long (exactly, except where a varint length step makes that length unreachable)
+func (p *pool) bigData(d, sz int) int {
+	d = d % 6
+	if i, ok := p.big[[2]int{d, sz}]; ok {
+		return i
+	}
+	base := p.datas[d]
+	pat := make([]byte, 4096)
+	for i := range pat {
+		pat[i] = byte(i*131 + d*7 + sz + i>>8)
+	}
+	mk := func(n int) (*types.Data, []byte) {
+		f := make([]byte, n)
+		for o := 0; o < n; o += len(pat) {
+			copy(f[o:], pat)
+		}
+		nd := &types.Data{Metadata: base.Metadata}
+		nd.Txs = append(append(types.Txs{}, base.Txs...), f)
+		b, err := nd.MarshalBinary()
+		if err != nil {
+			panic(err)
+		}
+		return nd, b
+	}
+	n := sz - len(p.datBlob[d]) - 4
+	if n < 1 {
+		n = 1
+	}
+	nd, blob := mk(n)
+	for it := 0; it < 4 && len(blob) != sz; it++ {
+		n += sz - len(blob)
+		if n < 1 {
+			n = 1
+		}
+		nd, blob = mk(n)
+	}
+	i := int(idx(p.datBlob, blob))
+	if i == 999999 {
+		p.datas = append(p.datas, nd)
+		p.datBlob = append(p.datBlob, blob)
+		i = len(p.datas) - 1
+	}
+	p.big[[2]int{d, sz}] = i
+	return i
+}
+
+// the history with every big payload made and named by its pool index (what the runner, the oracle and the Coq
+// terms use); replay files keep the (base data, length) form
+func resolveHist(p *pool, hist []Item) []Item {
+	out := make([]Item, len(hist))
+	for i, it := range hist {
+		out[i] = it
+		if it.Op != nil && it.Op.K == "save" && it.Op.Sz > 0 {
+			c := *it.Op
+			c.D, c.Sz = p.bigData(it.Op.D, it.Op.Sz), 0
+			out[i].Op = &c
+		}
+	}
+	return out
 }
 
 // sibling k (1 or 2) of base header b: the same Header (hence the same Hash() and height) in a SignedHeader of
@@ -56,7 +159,7 @@ func (p *pool) sibling(b, k int) int {
 
 // the base header whose hash a header shares, and its whole same-hash group
 func (p *pool) base(i int) int {
-	if i < p.nBase {
+	if i < p.nBase || i >= 3*p.nBase {
 		return i
 	}
 	return (i - p.nBase) / 2
@@ -66,7 +169,7 @@ func (p *pool) group(i int) []int { b := p.base(i); return []int{b, p.sibling(b,
 func rbytes(r *rand.Rand, n int) []byte { b := make([]byte, n); r.Read(b); return b }
 
 func newPool(r *rand.Rand) *pool {
-	p := &pool{}
+	p := &pool{big: map[[2]int]int{}}
 	p.heights = []uint64{1, 2, 3, 4, 5, 10, 1000000, 1<<64 - 1}
 	for _, h := range p.heights {
 		nv := 1 + r.Intn(3)
@@ -136,6 +239,33 @@ func newPool(r *rand.Rand) *pool {
 			p.hdrBlob = append(p.hdrBlob, blob)
 		}
 	}
+	// byte-boundary heights and three headers there (drawn after everything else)
+	p.bound = drawBound(r)
+	for _, d := range []int64{-2, -1, 0, 1, 2, 254, 255, 256, 257} {
+		h := p.bound + uint64(d)
+		if (d > 0 && h < p.bound) || h == 0 {
+			continue // beyond the largest height
+		}
+		p.bheights = append(p.bheights, h)
+	}
+	for _, d := range []int64{-1, 0, 1} {
+		sh := &types.SignedHeader{
+			Header: types.Header{
+				BaseHeader:      types.BaseHeader{Height: p.bound + uint64(d), Time: uint64(r.Int63()), ChainID: "c14"},
+				DataHash:        rbytes(r, 32),
+				AppHash:         rbytes(r, 32),
+				ProposerAddress: rbytes(r, 32),
+				LastHeaderHash:  rbytes(r, 32),
+			},
+			Signature: rbytes(r, 64),
+		}
+		b, err := sh.MarshalBinary()
+		if err != nil {
+			panic(err)
+		}
+		p.hdrs = append(p.hdrs, sh)
+		p.hdrBlob = append(p.hdrBlob, b)
+	}
 	return p
 }
 
@@ -199,6 +329,7 @@ type Op struct {
 	Key  string `json:"key,omitempty"`
 	V    int    `json:"v,omitempty"`
 	Junk bool   `json:"junk,omitempty"` // byhash on a hash that was never stored
+	Sz   int    `json:"sz,omitempty"`   // save: > 0 = the data is pool data D grown to a marshalled blob of Sz bytes (pool.bigData)
 	Sib  int    `json:"sib,omitempty"`  // hand-written corpus files only: H means same-hash sibling Sib (1, 2) of base header H; resolved when loaded
 }
 type Item struct {
@@ -215,7 +346,7 @@ type Replay struct {
 
 func genOp(r *rand.Rand, p *pool) *Op {
 	x := r.Intn(100)
-	h := p.heights[r.Intn(len(p.heights))]
+	h := p.pickHeight(r)
 	switch {
 	case x < 8:
 		return &Op{K: "setheight", N: h}
@@ -280,7 +411,7 @@ func genHistory(r *rand.Rand, p *pool, maxLen int) []Item {
 func genWriteOp(r *rand.Rand, p *pool) (*Op, *Op) {
 	switch r.Intn(4) {
 	case 0:
-		return &Op{K: "setheight", N: p.heights[r.Intn(len(p.heights))]}, &Op{K: "height"}
+		return &Op{K: "setheight", N: p.pickHeight(r)}, &Op{K: "height"}
 	case 1:
 		h := r.Intn(len(p.hdrs))
 		rd := &Op{K: "getblock", N: p.hdrs[h].Height()}
@@ -405,6 +536,161 @@ func genSameHashStream(r *rand.Rand, p *pool) []Item {
 		}
 		for i, n := 0, r.Intn(3); i < n; i++ {
 			h = append(h, Item{T: "op", Op: genOp(r, p)})
+		}
+	}
+	return h
+}
+
+// the height stream: SetHeight / Height around a byte boundary of the 8-byte little-endian height record, in BOTH
+// orders - an ascending walk that crosses the boundary (what a chain does block by block, here from a large initial
+// height), a descending walk (nothing may lower), there-and-back triples, the next multiple of 256, random picks -
+// with a Height() after most calls, crashes and write faults inside SetHeight, reopens, and saves at those heights.
+func genHeightStream(r *rand.Rand, p *pool) []Item {
+	var h []Item
+	op := func(o *Op) { h = append(h, Item{T: "op", Op: o}) }
+	set := func(n uint64) {
+		switch x := r.Intn(14); {
+		case x == 0:
+			h = append(h, Item{T: "crash", Op: &Op{K: "setheight", N: n}, Kc: r.Intn(2)})
+		case x == 1:
+			h = append(h, Item{T: "fault", Op: &Op{K: "setheight", N: n}, Kc: 0})
+		default:
+			op(&Op{K: "setheight", N: n})
+		}
+		if r.Intn(4) > 0 {
+			op(&Op{K: "height"})
+		}
+		if r.Intn(10) == 0 {
+			h = append(h, Item{T: "reopen"})
+			op(&Op{K: "height"})
+		}
+	}
+	for i, n := 0, r.Intn(3); i < n; i++ {
+		op(genOp(r, p))
+	}
+	b := p.bound
+	for j, rounds := 0, 1+r.Intn(3); j < rounds; j++ {
+		switch r.Intn(6) {
+		case 0: // the chain reaches the boundary block by block
+			for _, n := range []uint64{b - 2, b - 1, b, b + 1} {
+				set(n)
+			}
+		case 1: // the other order: nothing of it may lower the height
+			for _, n := range []uint64{b + 1, b, b - 1, b - 2} {
+				set(n)
+			}
+		case 2: // up across the boundary and back
+			set(b - 1)
+			set(b)
+			set(b - 1)
+		case 3: // the next multiple of 256
+			for _, n := range p.bheights[len(p.bheights)/2:] {
+				set(n)
+			}
+			set(b)
+		case 4: // blocks saved at the boundary heights, the height following them
+			for k := 3 * p.nBase; k < len(p.hdrs); k++ {
+				op(&Op{K: "save", H: k, D: r.Intn(6), S: r.Intn(len(p.sigs))})
+				set(p.hdrs[k].Height())
+				op(&Op{K: "getblock", N: p.hdrs[k].Height()})
+			}
+		default:
+			for i, n := 0, 3+r.Intn(6); i < n; i++ {
+				set(p.bheights[r.Intn(len(p.bheights))])
+			}
+		}
+		if r.Intn(3) == 0 {
+			op(genOp(r, p))
+		}
+	}
+	op(&Op{K: "height"})
+	return h
+}
+
+// the big-payload stream: an occupied height is overwritten by a block whose marshalled data is BIG - lengths on a
+// log scale, 2^10 .. 2^23 bytes (the exponent cycles with the case number so that every power of two up to 8 MiB
+// occurs in a quick run) and just below / at / just above / well above the power of two - and the overwrite is cut at
+// EVERY crash prefix (0, 1, 2 atomic writes survive) and hit by write faults on its first and second write attempt,
+// with all five reads of the old and of the new block after each, then completed, read, reopened and read again.
+// Whatever the size, the save must stay one atomic write: all of the new block or all of the old one.
+func genBigPayloadStream(r *rand.Rand, p *pool, c int) []Item {
+	var h []Item
+	op := func(o *Op) { h = append(h, Item{T: "op", Op: o}) }
+	reads := func(vs ...int) {
+		for _, v := range vs {
+			for _, o := range readsOf(p, v) {
+				op(o)
+			}
+		}
+	}
+	size := func(e int) int {
+		base := 1 << uint(e)
+		switch r.Intn(4) {
+		case 0:
+			return base - 1
+		case 1:
+			return base
+		case 2:
+			return base + 1
+		}
+		return base + 1 + r.Intn(base/2)
+	}
+	for i, n := 0, r.Intn(3); i < n; i++ {
+		op(genOp(r, p))
+	}
+	for j, rounds := 0, 1+r.Intn(2); j < rounds; j++ {
+		e := 10 + (c/10)%14
+		if j > 0 {
+			e = 10 + r.Intn(14)
+		}
+		sz := size(e)
+		// two headers at one height: of different hashes when the pool has them, else same-hash siblings
+		v1 := r.Intn(p.nBase)
+		v2 := p.sibling(v1, 1+r.Intn(2))
+		for o := 0; o < p.nBase; o++ {
+			if o != v1 && p.hdrs[o].Height() == p.hdrs[v1].Height() && r.Intn(4) > 0 {
+				v2 = p.sibling(o, r.Intn(3))
+				break
+			}
+		}
+		first := &Op{K: "save", H: v1, D: r.Intn(6), S: r.Intn(len(p.sigs))}
+		if r.Intn(4) == 0 {
+			first.Sz = size(10 + r.Intn(14)) // big over big
+		}
+		second := &Op{K: "save", H: v2, D: r.Intn(6), S: r.Intn(len(p.sigs)), Sz: sz}
+		op(first)
+		if r.Intn(2) == 0 {
+			reads(v1)
+		}
+		for _, k := range r.Perm(3) { // every crash prefix of the overwrite; the old block is put back after a completed one
+			h = append(h, Item{T: "crash", Op: second, Kc: k})
+			reads(v1, v2)
+			if k > 0 {
+				op(first)
+			}
+		}
+		if r.Intn(3) > 0 {
+			h = append(h, Item{T: "fault", Op: second, Kc: 1}) // met only by a save that makes a second write attempt
+			reads(v1, v2)
+			op(first)
+		}
+		if r.Intn(3) > 0 {
+			h = append(h, Item{T: "fault", Op: second, Kc: 0})
+			reads(v1, v2)
+		}
+		op(second)
+		reads(v1, v2)
+		if r.Intn(2) == 0 {
+			h = append(h, Item{T: "reopen"})
+			reads(v2)
+		}
+		if r.Intn(3) == 0 { // a fresh height with a big payload, cut as well
+			k := 3*p.nBase + r.Intn(len(p.hdrs)-3*p.nBase)
+			fresh := &Op{K: "save", H: k, D: r.Intn(6), S: r.Intn(len(p.sigs)), Sz: sz}
+			h = append(h, Item{T: "crash", Op: fresh, Kc: r.Intn(2)})
+			reads(k)
+			op(fresh)
+			reads(k)
 		}
 	}
 	return h
@@ -846,6 +1132,34 @@ func (o *oracle) afterCrash(r *runner, op *Op) {
 	}
 }
 
+// a completed SaveBlockData made nw > 1 atomic datastore writes; img is the database a crash after the j-th of them
+// leaves behind.  The height must read as all of the old block (or nothing, on a fresh height) or all of the new one.
+func (o *oracle) tornAt(img ds.Batching, op *Op, old refBlock, hadOld bool, j, nw int) {
+	rr := &runner{p: o.p, ctx: context.Background(), st: store.New(img)}
+	n := o.p.hdrs[op.H].Height()
+	gh := rr.exec(&Op{K: "getheader", N: n})
+	gb := rr.exec(&Op{K: "getblock", N: n})
+	gs := rr.exec(&Op{K: "getsig", N: n})
+	isNew := gh.kind == "header" && gh.a == uint64(op.H) && gb.kind == "block" && gb.a == uint64(op.H) && gb.b == uint64(op.D) && gs.kind == "sig" && gs.a == uint64(op.S)
+	isOld := (!hadOld && gh.kind == "err" && gb.kind == "err" && gs.kind == "err") ||
+		(hadOld && gh.kind == "header" && gh.a == uint64(old.h) && gb.kind == "block" && gb.a == uint64(old.h) && gb.b == uint64(old.d) && gs.kind == "sig" && gs.a == uint64(old.s))
+	if !isNew && !isOld {
+		o.fail("crash-torn-save", fmt.Sprintf("SaveBlockData(height %d, data blob of %d bytes) reached the datastore in %d atomic writes; a crash after write %d leaves the height neither the old nor the new block: header %v block %v signature %v",
+			n, len(o.p.datBlob[op.D]), nw, j, gh, gb, gs))
+		return
+	}
+	// by hash: the old block under its hash while the old one is in place, the new one under its hash once it is
+	if isNew {
+		if bh := rr.exec(&Op{K: "byhash", H: op.H}); bh.kind != "block" || bh.a != uint64(op.H) || bh.b != uint64(op.D) {
+			o.fail("crash-torn-save", fmt.Sprintf("SaveBlockData in %d atomic writes; after a crash behind write %d the new block is readable by height but not by hash", nw, j))
+		}
+	} else if hadOld {
+		if bh := rr.exec(&Op{K: "byhash", H: old.h}); bh.kind != "block" || bh.a != uint64(old.h) || bh.b != uint64(old.d) {
+			o.fail("crash-torn-save", fmt.Sprintf("SaveBlockData in %d atomic writes; after a crash behind write %d the old block is readable by height but not by hash", nw, j))
+		}
+	}
+}
+
 // ---- one case ----------------------------------------------------------------------------------
 
 func (c *caseResult) keyName(k string) string {
@@ -868,6 +1182,8 @@ type caseResult struct {
 	image   []string // Coq (key, sval) terms
 	shapes  []string
 	faults  []string // the refused write attempts, in order
+	traw    string   // the raw bytes of the /t record in the final database
+	nMulti  int      // completed saves that reached the datastore in more than one atomic write
 	nMet    int      // write faults that were met / not met
 	nUnmet  int
 	viol    []string
@@ -889,11 +1205,26 @@ func runCase(p *pool, hist []Item, disk bool) (res *caseResult) {
 		return
 	}
 	defer r.close()
+	hist = resolveHist(p, hist)
 	or := newOracle(p)
 	for _, it := range hist {
 		switch it.T {
 		case "op":
+			before := r.cds.Len()
+			var old refBlock
+			hadOld := false
+			if it.Op.K == "save" {
+				old, hadOld = or.blocks[p.hdrs[it.Op.H].Height()]
+			}
 			o := r.exec(it.Op)
+			if nw := r.cds.Len() - before; it.Op.K == "save" && nw > 1 {
+				// the save reached the datastore in several atomic writes: the process can die between any two of
+				// them - look at every such image (the crash-prefix machinery of the recording datastore)
+				res.nMulti++
+				for j := 1; j < nw; j++ {
+					or.tornAt(r.cds.Materialize(before+j), it.Op, old, hadOld, j, nw)
+				}
+			}
 			or.observe(it.Op, o)
 			res.outs = append(res.outs, o)
 		case "reopen":
@@ -973,7 +1304,11 @@ func runCase(p *pool, hist []Item, disk bool) (res *caseResult) {
 		res.err = err
 		return
 	}
+	res.traw = "[]"
 	for _, e := range dump {
+		if e.Key == "/t" {
+			res.traw = vgen.BytesN(e.Value)
+		}
 		res.image = append(res.image, fmt.Sprintf("(%s, %s)", res.keyName(projKey(e.Key)), decodeVal(p, e.Key, e.Value)))
 	}
 	for _, w := range r.cds.Log {
@@ -1123,7 +1458,7 @@ func caseRng(seed int64, c int) *rand.Rand { return rand.New(rand.NewSource(seed
 // the code's in Coq (cases file), here we only collect the pairs.
 func keyPairs(p *pool) []string {
 	var out []string
-	for _, h := range p.heights {
+	for _, h := range append(append([]uint64{}, p.heights...), p.bheights...) {
 		out = append(out, fmt.Sprintf("(header_key %s, %s)", vgen.N(h), vgen.Str(ds.NewKey(store.VerifHeaderKey(h)).String())),
 			fmt.Sprintf("(data_key %s, %s)", vgen.N(h), vgen.Str(ds.NewKey(store.VerifDataKey(h)).String())),
 			fmt.Sprintf("(sig_key %s, %s)", vgen.N(h), vgen.Str(ds.NewKey(store.VerifSignatureKey(h)).String())))
@@ -1142,7 +1477,20 @@ func keyPairs(p *pool) []string {
 }
 
 func shrink(p *pool, hist []Item, disk bool, sig string) []Item {
+	// a budget, so that shrinking ends in reasonable time on histories with multi-megabyte payloads: a run of the real
+	// store costs 1 + the MiB of payload its saves carry (deterministic, unlike a clock)
+	budget := 6000
 	fails := func(h []Item) bool {
+		cost := 1
+		for _, it := range h {
+			if it.Op != nil && it.Op.K == "save" {
+				cost += it.Op.Sz >> 20
+			}
+		}
+		if budget < cost {
+			return false
+		}
+		budget -= cost
 		r := runCase(p, h, disk)
 		for _, s := range r.viol {
 			if s == sig {
@@ -1152,6 +1500,17 @@ func shrink(p *pool, hist []Item, disk bool, sig string) []Item {
 		return false
 	}
 	cur := hist
+	// whole chunks first (halves, quarters, ...), then single items until nothing more can go
+	for chunk := len(cur) / 2; chunk >= 2; chunk /= 2 {
+		for i := 0; i+chunk <= len(cur); {
+			cand := append(append([]Item{}, cur[:i]...), cur[i+chunk:]...)
+			if fails(cand) {
+				cur = cand
+			} else {
+				i += chunk
+			}
+		}
+	}
 	for changed := true; changed; {
 		changed = false
 		for i := 0; i < len(cur); i++ {
@@ -1205,6 +1564,7 @@ func TestVerif(t *testing.T) {
 	var cases []string
 	var defsAll []string
 	distinct := map[string]bool{}
+	shrunk := map[string]bool{}
 	for ji, j := range jobs {
 		r := caseRng(j.seed, j.c)
 		p := newPool(r)
@@ -1217,7 +1577,13 @@ func TestVerif(t *testing.T) {
 			}
 		}
 		if hist == nil {
-			if j.c%4 == 3 {
+			if j.c%10 == 4 && !j.disk {
+				hist = genBigPayloadStream(r, p, j.c)
+				res.Count("history:big-payload-overwrite-crash-prefix-stream")
+			} else if j.c%10 == 2 {
+				hist = genHeightStream(r, p)
+				res.Count("history:byte-boundary-height-stream")
+			} else if j.c%4 == 3 {
 				hist = genFaultStream(r, p)
 				res.Count("history:fault-read-retry-reopen-stream")
 			} else if j.c%4 == 1 {
@@ -1231,7 +1597,11 @@ func TestVerif(t *testing.T) {
 		if cr.err != nil {
 			t.Fatalf("harness error: %v", cr.err)
 		}
+		raw := hist                // what a replay file holds: big payloads as (base data, length)
+		hist = resolveHist(p, raw) // big payloads by pool index, as the run and the Coq terms name them
 		res.Evaluations++
+		res.Distribution["save:completed-in-more-than-one-atomic-write"] += cr.nMulti
+		var setCur uint64 // the largest height a plain SetHeight of this history asked for so far
 		nsave, ncrash, nreopen, over := 0, 0, 0, false
 		sameOver, sameOverRead := false, false
 		seenH := map[uint64]int{}
@@ -1241,7 +1611,29 @@ func TestVerif(t *testing.T) {
 			if it.Op != nil {
 				res.Count("op:" + it.Op.K)
 				switch it.Op.K {
+				case "setheight":
+					if n := it.Op.N; it.T == "op" {
+						if setCur > 0 && n > setCur && n>>8 != setCur>>8 && n&0xff < setCur&0xff {
+							res.Count("setheight:raises-across-a-byte-boundary(record-orders-the-other-way)")
+						}
+						if n < setCur && n>>8 != setCur>>8 && n&0xff > setCur&0xff {
+							res.Count("setheight:lower-height-whose-record-orders-higher(must-not-lower)")
+						}
+						if n >= 1<<32 {
+							res.Count("setheight:height>=2^32")
+						}
+						if n > setCur {
+							setCur = n
+						}
+					}
 				case "save":
+					if l := len(p.datBlob[it.Op.D]); l >= 1<<10 {
+						b := 10
+						for l>>uint(b+1) > 0 {
+							b++
+						}
+						res.Count(fmt.Sprintf("save:data-blob-bytes-2^%02d..", b) + map[string]string{"op": "", "crash": "(crashed)", "fault": "(write-fault)"}[it.T])
+					}
 					nsave++
 					hh := p.hdrs[it.Op.H].Height()
 					if prev, ok := seenH[hh]; ok && prev != it.Op.H {
@@ -1291,12 +1683,16 @@ func TestVerif(t *testing.T) {
 		if nsave > 0 && len(hist) >= 3 {
 			distinct[hc] = true
 		}
-		rp := Replay{Seed: j.seed, Case: j.c, Disk: j.disk, History: hist}
+		rp := Replay{Seed: j.seed, Case: j.c, Disk: j.disk, History: raw}
 		for vi, sig := range cr.viol {
 			if vi > 0 && sig == cr.viol[0] {
 				continue
 			}
-			sh := shrink(p, hist, j.disk, sig)
+			sh := raw
+			if !shrunk[sig] { // the first failing history of each signature is shrunk (bin/check reports one per signature)
+				shrunk[sig] = true
+				sh = shrink(p, raw, j.disk, sig)
+			}
 			res.Violations = append(res.Violations, vgen.Violation{Signature: sig, What: cr.what[vi], Case: ji,
 				Replay: Replay{Seed: j.seed, Case: j.c, Disk: j.disk, History: sh}})
 		}
@@ -1315,20 +1711,20 @@ func TestVerif(t *testing.T) {
 		if ji%20 == 0 {
 			kp = vgen.List(keyPairs(p))
 		}
-		mod := fmt.Sprintf("Module C%d.\n%s\n%s\nDefinition c : scase := {| sc_hist := %s;\n sc_outs := %s;\n sc_image := %s;\n sc_shapes := %s;\n sc_faults := %s |}.\nDefinition keys_ok : bool := forallb (fun e => String.eqb (fst e) (snd e)) %s.\nEnd C%d.",
-			ji, strings.Join(p.coqDefs(used), "\n"), strings.Join(cr.keyDefs, "\n"), hc, vgen.List(outs), vgen.List(cr.image), vgen.List(cr.shapes), vgen.List(cr.faults), kp, ji)
+		mod := fmt.Sprintf("Module C%d.\n%s\n%s\nDefinition c : scase := {| sc_hist := %s;\n sc_outs := %s;\n sc_image := %s;\n sc_shapes := %s;\n sc_faults := %s;\n sc_traw := %s |}.\nDefinition keys_ok : bool := forallb (fun e => String.eqb (fst e) (snd e)) %s.\nEnd C%d.",
+			ji, strings.Join(p.coqDefs(used), "\n"), strings.Join(cr.keyDefs, "\n"), hc, vgen.List(outs), vgen.List(cr.image), vgen.List(cr.shapes), vgen.List(cr.faults), cr.traw, kp, ji)
 		defsAll = append(defsAll, mod)
 		cases = append(cases, fmt.Sprintf("(if C%d.keys_ok then C%d.c else bad_case)", ji, ji))
 		res.Replays[fmt.Sprint(ji)] = rp
 		if len(res.Samples) < 3 && nsave > 1 && ncrash > 0 {
-			res.Samples = append(res.Samples, map[string]interface{}{"history": hist, "outputs": outs})
+			res.Samples = append(res.Samples, map[string]interface{}{"history": raw, "outputs": outs})
 		}
 	}
 	res.Distinct = len(distinct)
-	res.Rule = "histories of 1..maxLen items over store operations (26% saves, crashes inside operations with 0..2 atomic writes surviving, transient write faults inside operations = write attempt 0 or 1 of the operation returns an error once and the store stays open, reopen) on pools of 8 heights x 1-3 headers each so that overwrites at one height with a different hash occur, every header with two same-hash siblings (same Header, other Signature / Signer inside the SignedHeader, other stored bytes; compared by the pool index of the stored bytes) so that overwrites with the SAME hash and other bytes occur; every 4th case is a same-hash overwrite stream (save, some of the five kinds of read, save of a same-hash sibling with the same or other data and signature record - sometimes faulted or crashed -, all five reads, reopen or crash, all five reads); every 4th case is a fault / read / retry / read / reopen / read stream over the four writing operations between random operations; every history ends with reads of everything acknowledged and of everything a failed operation tried to write, a close/reopen, and the same reads again; every 25th case on a real on-disk badger with true close/reopen; non-trivial = at least 3 items and one save; distinct = distinct Coq history terms"
+	res.Rule = "histories of 1..maxLen items over store operations (26% saves, crashes inside operations with 0..2 atomic writes surviving, transient write faults inside operations = write attempt 0 or 1 of the operation returns an error once and the store stays open, reopen) on pools of 8 heights x 1-3 headers each so that overwrites at one height with a different hash occur, every header with two same-hash siblings (same Header, other Signature / Signer inside the SignedHeader, other stored bytes; compared by the pool index of the stored bytes) so that overwrites with the SAME hash and other bytes occur; every 4th case is a same-hash overwrite stream (save, some of the five kinds of read, save of a same-hash sibling with the same or other data and signature record - sometimes faulted or crashed -, all five reads, reopen or crash, all five reads); every 4th case is a fault / read / retry / read / reopen / read stream over the four writing operations between random operations; every history ends with reads of everything acknowledged and of everything a failed operation tried to write, a close/reopen, and the same reads again; heights of SetHeight / reads are drawn (1 in 4) from the neighbourhood of a per-case byte boundary of the 8-byte little-endian height record (256, a multiple of 256, 2^16 .. 2^56, k*2^(8j), a power of two up to 2^63, the last multiple of 256 below 2^64, a random large height; bound-2 .. bound+2 and bound+254 .. bound+257), three extra headers sit at bound-1, bound, bound+1; every 10th case is a byte-boundary height stream (SetHeight / Height walking up across the boundary, down across it, there and back, over the next multiple of 256, random picks; crashes and write faults inside SetHeight, reopens, saves at those heights); every 10th case is a big-payload stream: an occupied height is overwritten by a block whose marshalled data is 2^e-1, 2^e, 2^e+1 or up to 1.5*2^e bytes long, e cycling through 10..23 with the case number (1 KiB .. 8 MiB and above), the overwrite cut at EVERY crash prefix (0, 1, 2 atomic writes survive) and hit by a write fault on its first and on its second write attempt, all five reads of old and new block after each; every completed save is checked to reach the datastore in ONE atomic write (write log compared with the model; if it made several, the database image after every proper prefix of them is materialised and read: all-old or all-new); the raw bytes of the final /t record are compared with the model's encoding of its height; every 25th case on a real on-disk badger with true close/reopen; non-trivial = at least 3 items and one save; distinct = distinct Coq history terms"
 	res.Cases = len(cases)
 	header := "From Coq Require Import String Ascii NArith List Bool.\nFrom Verif Require Import Base.KV Base.Keys Model.Store Check.StoreCheck."
-	defsAll = append([]string{"Definition bad_case : scase := {| sc_hist := []; sc_outs := [None]; sc_image := []; sc_shapes := []; sc_faults := [] |}."}, defsAll...)
+	defsAll = append([]string{"Definition bad_case : scase := {| sc_hist := []; sc_outs := [None]; sc_image := []; sc_shapes := []; sc_faults := []; sc_traw := [] |}."}, defsAll...)
 	path := filepath.Join(e.Out, "cases_C14.v")
 	if err := vgen.WriteCases(path, header, defsAll, "scase", cases, "mismatches"); err != nil {
 		t.Fatal(err)
